@@ -7,6 +7,7 @@
 (*  {"ev":"table","op":"new"|"neg"|"inv"|"balanced"|"value","first":v0,"vals":[..]}: full unary tables,   *)
 (*      compared entry by entry (a panic is recorded as the sentinel -99999 and never conforms).                                       *)
 (*  {"ev":"batchinv","v":[..],"res":[..]}: batch inversion, zeros map to zero.                           *)
+(*  {"ev":"opseq","op","xs","ys","res"}: a sequence of calls (many repeats over few values) in call order.  *)
 EXTENDS Zq, TraceLib
 FQ == 12289
 DM == 1000003
@@ -31,6 +32,11 @@ Judge(e) ==
     IN [ok |-> badidx = {}, branch |-> "table-" \o e.op,
         detail |-> IF badidx = {} THEN <<Len(e.vals)>> ELSE <<"first-bad-input", e.first + Min(badidx) - 1, "code", e.vals[Min(badidx)],
                                                              "spec", Unary(e.op, e.first + Min(badidx) - 1), "count", Cardinality(badidx)>>]
+  ELSE IF e.ev = "opseq" THEN
+    \* a sequence of calls in call order: every result is judged on its own (history must not matter)
+    LET want(i) == IF e.op \in {"add", "sub", "mul"} THEN Op(e.op, e.xs[i], e.ys[i]) ELSE Unary(e.op, e.xs[i])
+        badidx == {i \in 1..Len(e.xs) : e.res[i] # want(i)}
+    IN [ok |-> badidx = {}, branch |-> "opseq-" \o e.op, detail |-> IF badidx = {} THEN <<Len(e.xs)>> ELSE <<"first-bad-call", Min(badidx), e.xs[Min(badidx)], "code", e.res[Min(badidx)], "spec", want(Min(badidx))>>]
   ELSE
     LET ok == Len(e.res) = Len(e.v) /\ \A i \in 1..Len(e.v) : e.res[i] = InvM(e.v[i], FQ)
     IN [ok |-> ok, branch |-> "batchinv", detail |-> <<Len(e.v)>>]
